@@ -25,7 +25,7 @@ import (
 	"github.com/Flowpack/prunner/store"
 )
 
-const prunnerBin = "/verif/.cache/bin/prunner"
+var prunnerBin = filepath.Join(verifDir, ".cache", "bin", "prunner")
 
 type lockedBuf struct {
 	mu sync.Mutex
